@@ -140,6 +140,11 @@ func (g *gen) typ(depth int, self *Decl) *TE {
 			n = 0
 			g.c.AddFeat("array0")
 		}
+		// fixed byte arrays: encoding/json writes them as arrays of numbers (unlike byte slices)
+		if n > 0 && g.chance(0.15) {
+			g.c.AddFeat("byte-array")
+			return Array(n, Basic(pick(g.rng, []string{"byte", "uint8"})))
+		}
 		// fixed arrays of slices/maps are refused by the typescript generator: keep elements flat
 		return Array(n, g.leaf(false, self))
 	}
